@@ -253,8 +253,16 @@ Qed.
 (* ---------- worlds ---------- *)
 (* the hierarchy (which look-ups never change): every linearisation starts with its class, and everything in the
    linearisation of a base of c was defined before c (rank = position of the class statement) *)
+Definition names (w : world) : list string := map k_name (w_cls w).
+Lemma attr_in_names w c a : attr_of w c = Some a -> In c (names w).
+Proof.
+  unfold attr_of, find_kls, names. destruct (find _ (w_cls w)) as [k|] eqn:E; [|discriminate]. intros _.
+  apply find_some in E. destruct E as [Hin He]. apply String.eqb_eq in He. subst c. apply in_map. exact Hin.
+Qed.
+Lemma names_hier w : names w = map fst (hier w).
+Proof. unfold names, hier. rewrite map_map. reflexivity. Qed.
 Record hier_ok (w : world) (rank : string -> nat) : Prop := {
-  ho_head : forall c a, attr_of w c = Some a -> exists t, M w c = c :: t;
+  ho_head : forall c, In c (names w) -> exists t, M w c = c :: t;
   ho_rank : forall c b d, In b (tl (M w c)) -> In d (M w b) -> rank d < rank c }.
 Record wwf (w : world) : Prop := {
   ww_heap : hwf (w_heap w);
@@ -268,12 +276,18 @@ Record wext (w w' : world) : Prop := {
   we_hier : hier w' = hier w;
   we_func : forall c o, attr_of w c = Some (AFunc o) -> attr_of w' c = Some (AFunc o);
   we_inh : forall c o, attr_of w' c = Some (AInh o) -> attr_of w c = Some (AInh o);
-  we_some : forall c, attr_of w c = None <-> attr_of w' c = None }.
-Lemma wext_refl w : wext w w. Proof. constructor; auto using hext_refl; tauto. Qed.
+  we_some : forall c, attr_of w c = None <-> attr_of w' c = None;
+  (* the object a class holds afterwards is the one it held before, or an object created in between *)
+  we_attr_obj : forall c a, attr_of w' c = Some a ->
+                (exists a0, attr_of w c = Some a0 /\ obj_of a0 = obj_of a) \/ nobjs (w_heap w) <= obj_of a }.
+Lemma wext_refl w : wext w w. Proof. constructor; auto using hext_refl; try tauto. intros c a H. left. eauto. Qed.
 Lemma wext_trans a b c : wext a b -> wext b c -> wext a c.
 Proof.
-  intros [A1 A2 A3 A4 A5] [B1 B2 B3 B4 B5]. constructor; eauto using hext_trans; try congruence.
-  intros x. rewrite A5. apply B5.
+  intros [A1 A2 A3 A4 A5 A6] [B1 B2 B3 B4 B5 B6]. constructor; eauto using hext_trans; try congruence.
+  - intros x. rewrite A5. apply B5.
+  - intros x y Hy. destruct (B6 x y Hy) as [(y0 & Hy0 & Ey)|Hge].
+    + destruct (A6 x y0 Hy0) as [(y1 & Hy1 & Ey1)|Hge]; [left; exists y1; split; [exact Hy1|congruence]|right; rewrite <- Ey; exact Hge].
+    + right. pose proof (he_objs _ _ A1). lia.
 Qed.
 Lemma M_ext w w' c : wext w w' -> M w' c = M w c. Proof. intros E. unfold M. rewrite (we_hier _ _ E). reflexivity. Qed.
 
@@ -305,13 +319,14 @@ Definition ga_ok (rank : string -> nat) (ga : getter) : Prop :=
     wwf w1 /\ wext w w1 /\ frame w w1 /\
     (forall x, res = Some x -> x < nobjs (w_heap w1)) /\
     (forall x, attr_of w c = Some (AFunc x) -> res = Some x) /\
-    (forall d, (forall x, In x (M w c) -> rank x < rank d) -> attr_of w1 d = attr_of w d).
+    (forall d, (forall x, In x (M w c) -> rank x < rank d) -> attr_of w1 d = attr_of w d) /\
+    (* the function returned is a plain method of a class of the linearisation; whoever else holds it held it before *)
+    (forall x, res = Some x -> exists d, In d (M w c) /\ attr_of w1 d = Some (AFunc x) /\
+               forall y a, y <> d -> attr_of w1 y = Some a -> obj_of a = x -> exists a0, attr_of w y = Some a0 /\ obj_of a0 = x).
 Lemma hier_ok_ext w w' rank : wext w w' -> hier_ok w rank -> hier_ok w' rank.
 Proof.
   intros E [H1 H2]. constructor.
-  - intros c a Ha. rewrite (M_ext _ _ c E). destruct (attr_of w c) as [a0|] eqn:Ea0.
-    + eapply H1; eassumption.
-    + apply (we_some _ _ E) in Ea0. congruence.
+  - intros c Hc. rewrite (M_ext _ _ c E). apply H1. rewrite names_hier in *. rewrite <- (we_hier _ _ E). exact Hc.
   - intros c b d. rewrite !(M_ext _ _ _ E). apply H2.
 Qed.
 
@@ -320,7 +335,8 @@ Lemma with_heap_rel w0 w h' t : wwf w0 -> rel w0 w -> hext (w_heap w) h' -> hwf 
   (t < nregs (w_heap w0) -> Mut w0 t) -> rel w0 (with_heap w h').
 Proof.
   intros W0 (W & E & F) Hx Hw Hfr Ht.
-  assert (E' : wext w (with_heap w h')) by (constructor; cbn; auto; tauto).
+  assert (E' : wext w (with_heap w h')).
+  { constructor; cbn [w_heap with_heap]; auto; try tauto. intros c a Ha. left. rewrite attr_of_with_heap in Ha. eauto. }
   split; [|split; [eapply wext_trans; eassumption|]].
   - constructor; cbn [w_heap with_heap].
     + exact Hw.
@@ -347,7 +363,7 @@ Proof.
   - intros H; inversion H; subst. split; [exact R|split; [reflexivity|]]. intros (c' & [] & _).
   - destruct (ga w x) as [[w2 res]|] eqn:Eg; [|discriminate].
     destruct R as (W & E & F).
-    destruct (G w x w2 res W (hier_ok_ext _ _ _ E H0) Eg) as (W2 & E2 & F2 & Hres & Hfun & Hunt).
+    destruct (G w x w2 res W (hier_ok_ext _ _ _ E H0) Eg) as (W2 & E2 & F2 & Hres & Hfun & Hunt & _).
     assert (R2 : rel w0 w2) by (eapply rel_step; [exact W0|split; [exact W|split; eassumption]|exact W2|exact E2|exact F2]).
     assert (Hc : forall c, above rank w0 (x :: t) c -> attr_of w2 c = attr_of w c).
     { intros c Hab. apply Hunt. intros y Hy. rewrite (M_ext _ _ _ E) in Hy. eapply Hab; [left; reflexivity|exact Hy]. }
@@ -369,23 +385,29 @@ Lemma merge_ok rank ga : ga_ok rank ga -> forall bases w0 w o patched w1 q,
   patched < nobjs (w_heap w) ->
   (forall t, own_wrapper (w_heap w) patched = Some t -> t < nregs (w_heap w0) -> Mut w0 t) ->
   (patched = o \/ nobjs (w_heap w0) <= patched) ->
+  (patched = o \/ forall y a, attr_of w y = Some a -> obj_of a <> patched) ->
   merge_bases ga w bases o patched = Some (w1, q) ->
-  rel w0 w1 /\ (forall c, above rank w0 bases c -> attr_of w1 c = attr_of w c) /\ q < nobjs (w_heap w1) /\ (q = o \/ nobjs (w_heap w0) <= q).
+  rel w0 w1 /\ (forall c, above rank w0 bases c -> attr_of w1 c = attr_of w c) /\ q < nobjs (w_heap w1) /\ (q = o \/ nobjs (w_heap w0) <= q) /\
+  (q = o \/ forall y a, attr_of w1 y = Some a -> obj_of a <> q).
 Proof.
-  intros G. induction bases as [|x t IH]; intros w0 w o patched w1 q W0 H0 R Hp Htgt Hpo; cbn.
+  intros G. induction bases as [|x t IH]; intros w0 w o patched w1 q W0 H0 R Hp Htgt Hpo Hun; cbn.
   - intros H; inversion H; subst. auto.
   - destruct (ga w x) as [[w2 res]|] eqn:Eg; [|discriminate].
     pose proof R as (W & E & F).
-    destruct (G w x w2 res W (hier_ok_ext _ _ _ E H0) Eg) as (W2 & E2 & F2 & Hres & Hfun & Hunt).
+    destruct (G w x w2 res W (hier_ok_ext _ _ _ E H0) Eg) as (W2 & E2 & F2 & Hres & Hfun & Hunt & _).
     assert (R2 : rel w0 w2) by (eapply rel_step; [exact W0|exact R|exact W2|exact E2|exact F2]).
     assert (Hc : forall c, above rank w0 (x :: t) c -> attr_of w2 c = attr_of w c).
     { intros c Hab. apply Hunt. intros y Hy. rewrite (M_ext _ _ _ E) in Hy. eapply Hab; [left; reflexivity|exact Hy]. }
     assert (Hp2 : patched < nobjs (w_heap w2)) by (pose proof (he_objs _ _ (we_heap _ _ E2)); lia).
     assert (Htgt2 : forall t0, own_wrapper (w_heap w2) patched = Some t0 -> t0 < nregs (w_heap w0) -> Mut w0 t0).
     { intros t0 Ht0. apply Htgt. rewrite <- Ht0. symmetry. apply own_wrapper_stable; [apply W|apply E2|exact Hp]. }
+    assert (Hun2 : patched = o \/ forall y a, attr_of w2 y = Some a -> obj_of a <> patched).
+    { destruct Hun as [->|Hun]; [left; reflexivity|right]. intros y a Ha.
+      destruct (we_attr_obj _ _ E2 y a Ha) as [(a0 & Ha0 & Eo)|Hge]; [rewrite <- Eo; eapply Hun; exact Ha0|lia]. }
     assert (Skip : merge_bases ga w2 t o patched = Some (w1, q) ->
-                   rel w0 w1 /\ (forall c, above rank w0 (x :: t) c -> attr_of w1 c = attr_of w c) /\ q < nobjs (w_heap w1) /\ (q = o \/ nobjs (w_heap w0) <= q)).
-    { intros H. destruct (IH w0 w2 o patched w1 q W0 H0 R2 Hp2 Htgt2 Hpo H) as (A & B & C & D).
+                   rel w0 w1 /\ (forall c, above rank w0 (x :: t) c -> attr_of w1 c = attr_of w c) /\ q < nobjs (w_heap w1) /\ (q = o \/ nobjs (w_heap w0) <= q) /\
+                   (q = o \/ forall y a, attr_of w1 y = Some a -> obj_of a <> q)).
+    { intros H. destruct (IH w0 w2 o patched w1 q W0 H0 R2 Hp2 Htgt2 Hpo Hun2 H) as (A & B & C & D & D2).
       split; [exact A|split; [intros c Hab; rewrite (B c (above_tl _ _ _ _ _ Hab)); apply Hc; exact Hab|auto]]. }
     destruct res as [other|]; [|exact Skip].
     destruct (Nat.eqb other o); [exact Skip|].
@@ -405,7 +427,11 @@ Proof.
     { destruct Hcase as [[_ B]|[_ [_ C]]].
       - rewrite B. exact Hpo.
       - right. rewrite C. pose proof (he_objs _ _ (we_heap _ _ (proj1 (proj2 R2)))). lia. }
-    destruct (IH w0 (with_heap w2 h') o q' w1 q W0 H0 R3 Hq3 Htgt3 Hpo3 H) as (A & B & C & D).
+    assert (Hun3 : q' = o \/ forall y a, attr_of (with_heap w2 h') y = Some a -> obj_of a <> q').
+    { destruct Hcase as [[_ B]|[_ [_ C]]].
+      - rewrite B. destruct Hun2 as [->|Hun2]; [left; reflexivity|right; intros y a; rewrite attr_of_with_heap; apply Hun2].
+      - right. intros y a. rewrite attr_of_with_heap. intros Ha. rewrite C. pose proof (ww_obj _ W2 y a Ha). lia. }
+    destruct (IH w0 (with_heap w2 h') o q' w1 q W0 H0 R3 Hq3 Htgt3 Hpo3 Hun3 H) as (A & B & C & D & D2).
     split; [exact A|split; [intros c Hab; rewrite (B c (above_tl _ _ _ _ _ Hab)), attr_of_with_heap; apply Hc; exact Hab|auto]].
 Qed.
 
@@ -413,20 +439,25 @@ Qed.
 Lemma set_attr_final w0 w3 c o q : wwf w0 -> rel w0 w3 -> attr_of w3 c = Some (AInh o) -> q < nobjs (w_heap w3) ->
   (q = o \/ nobjs (w_heap w0) <= q) ->
   let w' := set_attr w3 c (AFunc q) in
-  wwf w' /\ wext w0 w' /\ frame w0 w' /\ (forall d, d <> c -> attr_of w' d = attr_of w3 d).
+  wwf w' /\ wext w0 w' /\ frame w0 w' /\ (forall d, d <> c -> attr_of w' d = attr_of w3 d) /\ attr_of w' c = Some (AFunc q).
 Proof.
   intros W0 (W3 & E3 & F3) Hc Hq Hqo w'.
   assert (Hoth : forall d, d <> c -> attr_of w' d = attr_of w3 d) by (intros d N; apply attr_of_set_attr_other; exact N).
   assert (Hsame : attr_of w' c = Some (AFunc q)) by (eapply attr_of_set_attr_same; exact Hc).
   assert (HM : forall x, M w' x = M w3 x) by (intros x; unfold M, w'; rewrite hier_set_attr; reflexivity).
-  assert (E' : wext w3 w').
+  assert (Hc0 : attr_of w0 c = Some (AInh o)) by (apply (we_inh _ _ E3); exact Hc).
+  assert (E' : wext w0 w').
   { constructor.
-    - apply hext_refl.
-    - apply hier_set_attr.
-    - intros x o' Hx. destruct (String.eqb_spec x c) as [->|N]; [congruence|rewrite Hoth by exact N; exact Hx].
-    - intros x o' Hx. destruct (String.eqb_spec x c) as [->|N]; [congruence|rewrite Hoth in Hx by exact N; exact Hx].
-    - intros x. destruct (String.eqb_spec x c) as [->|N]; [rewrite Hc, Hsame; split; discriminate|rewrite Hoth by exact N; tauto]. }
-  split; [|split; [eapply wext_trans; eassumption|split; [exact F3|exact Hoth]]].
+    - exact (we_heap _ _ E3).
+    - unfold w'. rewrite hier_set_attr. exact (we_hier _ _ E3).
+    - intros x o' Hx. pose proof (we_func _ _ E3 _ _ Hx) as Hx3.
+      destruct (String.eqb_spec x c) as [->|N]; [congruence|rewrite Hoth by exact N; exact Hx3].
+    - intros x o' Hx. destruct (String.eqb_spec x c) as [->|N]; [congruence|rewrite Hoth in Hx by exact N; apply (we_inh _ _ E3); exact Hx].
+    - intros x. destruct (String.eqb_spec x c) as [->|N]; [rewrite Hc0, Hsame; split; discriminate|rewrite Hoth by exact N; apply (we_some _ _ E3)].
+    - intros x a Hx. destruct (String.eqb_spec x c) as [->|N].
+      + rewrite Hsame in Hx. inversion Hx; subst a. cbn [obj_of]. destruct Hqo as [->|Hge]; [left; exists (AInh o); auto|right; exact Hge].
+      + rewrite Hoth in Hx by exact N. apply (we_attr_obj _ _ E3); exact Hx. }
+  split; [|split; [exact E'|split; [exact F3|split; [exact Hoth|exact Hsame]]]].
   constructor.
   - exact (ww_heap _ W3).
   - intros x a Hx. destruct (String.eqb_spec x c) as [->|N].
@@ -447,7 +478,9 @@ Lemma patch_ok rank ga : ga_ok rank ga -> forall w c o w1 p,
   wwf w -> hier_ok w rank -> attr_of w c = Some (AInh o) ->
   patch_with ga w c o = Some (w1, p) ->
   wwf w1 /\ wext w w1 /\ frame w w1 /\ p < nobjs (w_heap w1) /\
-  (forall d, d <> c -> above rank w (tl (M w c)) d -> attr_of w1 d = attr_of w d).
+  (forall d, d <> c -> above rank w (tl (M w c)) d -> attr_of w1 d = attr_of w d) /\
+  attr_of w1 c = Some (AFunc p) /\
+  (forall y a, y <> c -> attr_of w1 y = Some a -> obj_of a = p -> exists a0, attr_of w y = Some a0 /\ obj_of a0 = p).
 Proof.
   intros G w c o w1 p W H0 Hc. unfold patch_with. fold (M w c).
   set (bases := tl (M w c)).
@@ -460,7 +493,8 @@ Proof.
   set (start := match (if inh then own_wrapper (w_heap w2) o else None) with Some r => _ | None => (w2, o) end).
   assert (S : rel w (fst start) /\ (forall d, attr_of (fst start) d = attr_of w2 d) /\ snd start < nobjs (w_heap (fst start)) /\
               (forall t, own_wrapper (w_heap (fst start)) (snd start) = Some t -> t < nregs (w_heap w) -> Mut w t) /\
-              (snd start = o \/ nobjs (w_heap w) <= snd start)).
+              (snd start = o \/ nobjs (w_heap w) <= snd start) /\
+              (snd start = o \/ forall y a, attr_of (fst start) y = Some a -> obj_of a <> snd start)).
   { unfold start. destruct inh.
     - destruct (own_wrapper (w_heap w2) o) as [ro|] eqn:Eo.
       + (* a private copy of the registry *)
@@ -475,22 +509,27 @@ Proof.
         split; [eapply with_heap_rel; try eassumption; intros; lia|].
         split; [intros d; apply attr_of_with_heap|]. split; [exact Hq|]. split.
         * cbn [w_heap with_heap]. intros t Ht. rewrite Hown in Ht. inversion Ht; subst. lia.
-        * right. rewrite C. apply (he_objs _ _ (we_heap _ _ E2)).
-      + cbn [fst snd]. split; [exact R2|]. split; [reflexivity|]. split; [exact Ho2|]. split; [intros t Ht; congruence|left; reflexivity].
-    - cbn [fst snd]. split; [exact R2|]. split; [reflexivity|]. split; [exact Ho2|]. split; [|left; reflexivity].
+        * split; [right; rewrite C; apply (he_objs _ _ (we_heap _ _ E2))|].
+          right. intros y a. rewrite attr_of_with_heap. intros Ha. rewrite C. pose proof (ww_obj _ W2 y a Ha). lia.
+      + cbn [fst snd]. split; [exact R2|]. split; [reflexivity|]. split; [exact Ho2|]. split; [intros t Ht; congruence|split; left; reflexivity].
+    - cbn [fst snd]. split; [exact R2|]. split; [reflexivity|]. split; [exact Ho2|]. split; [|split; left; reflexivity].
       intros t Ht Hlt. exists c, o. split; [exact Hc|]. split.
       + rewrite <- Ht. symmetry. apply own_wrapper_stable; [apply W|apply E2|apply (ww_obj _ W c (AInh o) Hc)].
       + intros c' Hc'. assert (true = false); [|discriminate]. symmetry. apply Hinh.
         assert (Nc : c <> c') by (intros ->; congruence).
         destruct (ww_shared _ W c c' o Nc Hc (or_introl Hc')) as (b & Hb1 & Hb2). exists b. split; assumption. }
-  destruct S as (Rs & Hats & Hps & Htgts & Hpos).
+  destruct S as (Rs & Hats & Hps & Htgts & Hpos & Huns).
   destruct (merge_bases ga (fst start) bases o (snd start)) as [[w3 q]|] eqn:Em; [|discriminate].
-  destruct (merge_ok rank ga G bases w (fst start) o (snd start) w3 q W H0 Rs Hps Htgts Hpos Em) as (R3 & Hunt3 & Hq3 & Hqo).
+  destruct (merge_ok rank ga G bases w (fst start) o (snd start) w3 q W H0 Rs Hps Htgts Hpos Huns Em) as (R3 & Hunt3 & Hq3 & Hqo & Hunq).
   assert (Hc3 : attr_of w3 c = Some (AInh o)) by (rewrite (Hunt3 c Habc), Hats; exact Hc2).
   intros H; inversion H; subst w1 p. clear H.
-  destruct (set_attr_final w w3 c o q W R3 Hc3 Hq3 Hqo) as (Wf & Ef & Ff & Hoth).
-  split; [exact Wf|split; [exact Ef|split; [exact Ff|split; [exact Hq3|]]]].
-  intros d N Hab. rewrite (Hoth d N), (Hunt3 d Hab), Hats. apply Hunt2. exact Hab.
+  destruct (set_attr_final w w3 c o q W R3 Hc3 Hq3 Hqo) as (Wf & Ef & Ff & Hoth & Hsame).
+  split; [exact Wf|split; [exact Ef|split; [exact Ff|split; [exact Hq3|split; [|split; [exact Hsame|]]]]]].
+  - intros d N Hab. rewrite (Hoth d N), (Hunt3 d Hab), Hats. apply Hunt2. exact Hab.
+  - intros y a N Ha Eo. destruct Hunq as [->|Hunq].
+    + destruct (we_attr_obj _ _ Ef y a Ha) as [(a0 & Ha0 & Eo0)|Hge]; [exists a0; split; [exact Ha0|congruence]|].
+      exfalso. pose proof (ww_obj _ W c (AInh o) Hc) as Hlt. cbn [obj_of] in Hlt. lia.
+    + exfalso. rewrite (Hoth y N) in Ha. exact (Hunq y a Ha Eo).
 Qed.
 
 (* ---------- getattr with lazy patching ---------- *)
@@ -500,23 +539,25 @@ Proof.
   destruct (first_def w (M w cls)) as [[d [o|o]]|] eqn:Ef.
   - (* a plain function *)
     intros H; inversion H; subst. destruct (first_def_sound _ _ _ _ Ef) as [Ha Hin].
-    split; [exact W|split; [apply wext_refl|split; [intros r _ _; reflexivity|split; [|split; [|reflexivity]]]]].
+    split; [exact W|split; [apply wext_refl|split; [intros r _ _; reflexivity|split; [|split; [|split; [reflexivity|]]]]]].
     + intros x Hx; inversion Hx; subst. apply (ww_obj _ W d (AFunc x) Ha).
-    + intros x Hx. destruct (ho_head _ _ H0 cls _ Hx) as [t Ht]. rewrite Ht in Ef. rewrite (first_def_head _ _ _ _ Hx) in Ef. congruence.
+    + intros x Hx. destruct (ho_head _ _ H0 cls (attr_in_names _ _ _ Hx)) as [t Ht]. rewrite Ht in Ef. rewrite (first_def_head _ _ _ _ Hx) in Ef. congruence.
+    + intros x Hx; inversion Hx; subst x. exists d. split; [exact Hin|split; [exact Ha|]]. intros y a _ Hy Eo. exists a. auto.
   - (* an Inherit object: patch its class first *)
     destruct (first_def_sound _ _ _ _ Ef) as [Ha Hin].
     destruct (patch_with (getattr_n n) w d o) as [[w2 p]|] eqn:Ep; [|discriminate].
     intros H; inversion H; subst w1 res. clear H.
-    destruct (patch_ok rank (getattr_n n) IH w d o w2 p W H0 Ha Ep) as (W2 & E2 & F2 & Hp & Hunt).
-    split; [exact W2|split; [exact E2|split; [exact F2|split; [|split]]]].
+    destruct (patch_ok rank (getattr_n n) IH w d o w2 p W H0 Ha Ep) as (W2 & E2 & F2 & Hp & Hunt & Hsame & Hhold).
+    split; [exact W2|split; [exact E2|split; [exact F2|split; [|split; [|split]]]]].
     + intros x Hx; inversion Hx; subst; exact Hp.
-    + intros x Hx. destruct (ho_head _ _ H0 cls _ Hx) as [t Ht]. rewrite Ht in Ef. rewrite (first_def_head _ _ _ _ Hx) in Ef. congruence.
+    + intros x Hx. destruct (ho_head _ _ H0 cls (attr_in_names _ _ _ Hx)) as [t Ht]. rewrite Ht in Ef. rewrite (first_def_head _ _ _ _ Hx) in Ef. congruence.
     + intros e He. apply Hunt.
       * intros ->. specialize (He d Hin). lia.
       * intros x Hx y Hy. pose proof (ho_rank _ _ H0 d x y Hx Hy). specialize (He d Hin). lia.
+    + intros x Hx; inversion Hx; subst x. exists d. split; [exact Hin|split; [exact Hsame|]]. intros y a N Hy Eo. eapply Hhold; eassumption.
   - intros H; inversion H; subst.
-    split; [exact W|split; [apply wext_refl|split; [intros r _ _; reflexivity|split; [discriminate|split; [|reflexivity]]]]].
-    intros x Hx. destruct (ho_head _ _ H0 cls _ Hx) as [t Ht]. rewrite Ht in Ef. rewrite (first_def_head _ _ _ _ Hx) in Ef. discriminate.
+    split; [exact W|split; [apply wext_refl|split; [intros r _ _; reflexivity|split; [discriminate|split; [|split; [reflexivity|discriminate]]]]]].
+    intros x Hx. destruct (ho_head _ _ H0 cls (attr_in_names _ _ _ Hx)) as [t Ht]. rewrite Ht in Ef. rewrite (first_def_head _ _ _ _ Hx) in Ef. discriminate.
 Qed.
 
 (* ---------- the statements of Props/C11.v ---------- *)
